@@ -9,10 +9,10 @@ def positions(t, v, path=(), names=()):
     k = t['k']
     if v is None:
         return
-    if k == 'seqof':
+    if k in ('seqof', 'setof'):
         for i, e in enumerate(v):
             yield from positions(t['elem'], e, path + (i,), names)
-    elif k == 'seq':
+    elif k in ('seq', 'set'):
         for m in t['root'] + (t['ext'] or []):
             if m['name'] in v:
                 yield from positions(m['t'], v[m['name']], path + (m['name'],), names + (m['name'],))
